@@ -305,11 +305,27 @@ impl Monitor for QuoteMon {
         if starts.is_empty() {
             return;
         }
+        // ... plus, as the high-level SDKs do (they fetch arrays on both sides of the price), up to three arrays
+        // BEHIND the price: they are not on the path, so the quote must not depend on them
+        let n_path = starts.len().min(3);
+        starts.truncate(n_path);
+        let behind = w.r.gen_range(0..=3usize);
+        for j in 1..=behind {
+            let s = starts[0] as i64 + if c.a_to_b { 1 } else { -1 } * j as i64 * tia as i64;
+            if s + tia as i64 <= MIN_TICK_INDEX as i64 || s > MAX_TICK_INDEX as i64 || starts.contains(&(s as i32)) {
+                break;
+            }
+            starts.push(s as i32);
+        }
         let fac: Vec<sdk::TickArrayFacade> = starts.iter().map(|s| tick_array_facade(&obs.pre, &c.pool, *s)).collect();
+        acc.count(&format!("quotes_with_{}_arrays", fac.len()));
         let arrays = match fac.len() {
             1 => sdk::TickArrays::One(fac[0]),
             2 => sdk::TickArrays::Two(fac[0], fac[1]),
-            _ => sdk::TickArrays::Three(fac[0], fac[1], fac[2]),
+            3 => sdk::TickArrays::Three(fac[0], fac[1], fac[2]),
+            4 => sdk::TickArrays::Four(fac[0], fac[1], fac[2], fac[3]),
+            5 => sdk::TickArrays::Five(fac[0], fac[1], fac[2], fac[3], fac[4]),
+            _ => sdk::TickArrays::Six(fac[0], fac[1], fac[2], fac[3], fac[4], fac[5]),
         };
         let oracle = if pre.is_adaptive() { obs.pre.data(&obs.ix.key("oracle")).and_then(codec::Oracle::decode).map(|o| oracle_facade(&o)) } else { None };
         let now = obs.pre.clock.unix_timestamp as u64;
